@@ -467,3 +467,53 @@ package py
 //@ iface IGetDict.GetDict(self) (r)
 //@   traced 49
 //@   pure
+
+// ---- strings as sequences of code points (C14): offsets are translated, never used raw ----
+
+//@ func (String).len(s) (r)
+//@   pure
+//@   ensures count: r == nrunes(s)
+
+//@ func (String).pos(s, n) (r)
+//@   trusted
+//@   pure
+//@   requires nn: 0 <= n
+//@   ensures inside: n <= nrunes(s) ==> r == cpoff(s, n)
+//@   ensures beyond: n > nrunes(s) ==> r == nbytes(s)
+
+//@ func (String).slice(s, start, stop, length) (r)
+//@   pure
+//@   requires len: length == nrunes(s)
+//@   requires rng: 0 <= start && stop <= length
+//@   ensures empty: start >= stop ==> nbytes(r) == 0
+//@   ensures sub: start < stop ==> r == cpslice(s, start, stop)
+
+//@ func (String).Count(s, args) (r, err)
+//@   modifies *
+
+//@ func (String).find(s, args) (r, err)
+//@   modifies *
+
+//@ func @string.go:6(self, args) (r, err)
+//@   modifies *
+//@   loop 1 (rangeindex)
+//@     invariant rng: 0 - 1 <= rangeindex
+//@   loop 2 (rangeindex)
+//@     invariant rng: 0 - 1 <= rangeindex
+
+//@ func (String).M__getitem__(s, key) (r, err)
+//@   requires nn: keyNN(key)
+//@   modifies *
+//@   ensures idx: isIntLike(key) && err == nil ==> is(r, String) && r.(String) == cpslice(s, norm(den(key), nrunes(s)), norm(den(key), nrunes(s)) + 1)
+//@   ensures idxok: isIntLike(key) && 0 <= norm(den(key), nrunes(s)) && norm(den(key), nrunes(s)) < nrunes(s) ==> err == nil
+//@   ensures idxerr: isIntLike(key) && inInt64(den(key)) && !(0 <= norm(den(key), nrunes(s)) && norm(den(key), nrunes(s)) < nrunes(s)) ==> raisesExc(err, IndexError)
+//@   ensures sl1: is(key, *Slice) && sliceOK(key.(*Slice)) && sliceFits(key.(*Slice)) && sstep(key.(*Slice)) == 1 && err == nil && sstart(key.(*Slice), nrunes(s)) < sstop(key.(*Slice), nrunes(s)) ==> is(r, String) && r.(String) == cpslice(s, sstart(key.(*Slice), nrunes(s)), sstop(key.(*Slice), nrunes(s)))
+
+//@ func (String).M__len__(s) (r, err)
+//@   ensures len: err == nil && is(r, Int) && den(r) == nrunes(s)
+
+//@ func fieldsN(s, n) (r)
+//@   modifies *
+
+//@ func StringEscape(a, ascii) (r)
+//@   modifies *
